@@ -1034,6 +1034,65 @@ def build_replay(ck, prog, gc, g, v, origin):
     return rep
 
 
+def f8_trigger(ck, prog, g):
+    """Hash-equal distinct facts among Go's facts and the model's facts (internal relations included): the
+    trigger of known finding F8 (hash-keyed stores), which is not this property's subject."""
+    named = []
+    try:
+        named += [(dc.pred_name(f["p"]), f["args"]) for f in facts_from_go(g["facts"])]
+    except ValueError:
+        pass
+    out = ck.coq_show("C02", "model_tokens_all " + cq_case(prog, g))
+    m = re.search(r"=\s*\[(.*?)\]\s*:\s*list Z", out, re.S)
+    if m:
+        try:
+            kind, facts = dc.parse_model_tokens([int(x) for x in re.findall(r"-?\d+", m.group(1))])
+            if kind == "ok":
+                named += [(id_name(f["p"]), f["args"]) for f in facts]
+        except (ValueError, IndexError):
+            pass
+    # one fact may be listed twice, and a collected list in two orders (a set for the property): collisions
+    # are judged on the canonical form
+    canon, seen = [], set()
+    for nm, args in named:
+        args = [sort_lists(a) for a in args]
+        t = (nm, json.dumps(args))
+        if t not in seen:
+            seen.add(t)
+            canon.append((nm, args))
+    return hash_collisions(canon)
+
+
+def sort_lists(c):
+    if c[0] == "list":
+        return ["list", sorted((sort_lists(x) for x in c[1]), key=json.dumps)]
+    if c[0] == "pair":
+        return ["pair", sort_lists(c[1]), sort_lists(c[2])]
+    return c
+
+
+CYC_DETAIL = {1: "the store is not closed under the plain rules: the relation the aggregate was taken over was not complete",
+              2: "the store is closed under the plain rules but the aggregated facts are not the fold over the body's solutions",
+              3: "the store happens to be closed and consistent (the cycle did not fire on these facts)",
+              7: "no store of an evaluated run could be examined"}
+
+
+def build_cyc_replay(ck, prog, case, x, v, origin):
+    term = cq_cyc(prog, x)
+    try:
+        d = ck.run_coq("C02", "judge_cyc_detail", [term], tag="cycd")[0]
+    except Exception:
+        d = 7
+    return {"property": "C02", "kind": "agg-cycle", "verdict": v, "origin": origin, "program": prog, "src": case["src"],
+            "rounds": x["rounds"], "refused_by_stratify": x["rej_strat"], "refused_by_analysis": x["rej_analysis"],
+            "evaluated": x["accepted"], "evaluated_then_failed": x["other_err"], "outcomes": x["outcomes"],
+            "store_detail": CYC_DETAIL.get(d, str(d)),
+            "why_violation": "Props/C02.v agg_cycle_not_stratifiable: the program has an aggregation edge on a dependency "
+                             "cycle (Run.C02.judge_cyc evaluated agg_in_cycle = true), so no evaluation by strata has the "
+                             "aggregating rule's body complete before its head; the library has to refuse it, and it was "
+                             "evaluated in %d of %d runs" % (x["accepted"] + x["other_err"], x["rounds"])}
+
+
 PROBES = [("F2b", witness_f2b, "internal predicate names `<head><n>__tmp` collide (p11+1 = p1+11 = p111__tmp): "
            "the 11th aggregating rule of p1 and the rule of p11 share one internal relation"),
           ("F2d", witness_f2d, "facts produced by a do-transform are not seen by the other rules of the same "
@@ -1046,14 +1105,30 @@ def run(ck):
     rng = ck.rng
     progs, origin = [], []
     here = os.path.dirname(os.path.abspath(__file__))
+    cyc_progs, cyc_origin = [], []
     for path in sorted(glob.glob(os.path.join(here, "..", "corpus", "C02", "*.json"))):
-        progs.append(json.load(open(path))["program"])
+        cj = json.load(open(path))
+        if cj.get("kind") == "agg-cycle":
+            cyc_progs.append(cj["program"])
+            cyc_origin.append("corpus:" + os.path.basename(path))
+            continue
+        progs.append(cj["program"])
         origin.append("corpus:" + os.path.basename(path))
     ncorpus = len(progs)
-    for _ in range(ck.n(200, 2500)):
+    for _ in range(ck.n(170, 2500)):
         progs.append(gen_program(rng, big=(not ck.quick) and rng.random() < 0.4))
         origin.append("random")
     nrandom = len(progs) - ncorpus
+    # confusable constants in key and collected columns (strengthened after seeding)
+    nconf = ck.n(70, 900)
+    for _ in range(nconf):
+        progs.append(gen_conf_program(rng))
+        origin.append("confusable")
+    # recursion through an aggregation edge: must be refused on every run
+    for _ in range(ck.n(30, 400)):
+        cyc_progs.append(cyc_program(rng))
+        cyc_origin.append("random")
+    cyc_rounds = ck.n(40, 100)
     nexh = 0
     if not ck.quick:
         ex = list(exhaustive_programs())
@@ -1064,18 +1139,20 @@ def run(ck):
     for i, p in enumerate(progs):
         if origin[i] == "exhaustive":
             stores, det = ["simple", "multi"], [False]
-        elif ck.quick and origin[i] == "random":
+        elif ck.quick and origin[i] in ("random", "confusable"):
             stores, det = rng.sample(ALL_STORES, 2), [rng.random() < 0.5]
-        elif origin[i] == "random":
+        elif origin[i] in ("random", "confusable"):
             stores, det = rng.sample(ALL_STORES, 3), [False, True]
         else:
             stores, det = ALL_STORES, [False, True]
-        go_cases.append(go_case(p, stores, det, shuffle_rng=rng if origin[i] == "random" and rng.random() < 0.5 else None))
+        go_cases.append(go_case(p, stores, det, shuffle_rng=rng if origin[i] in ("random", "confusable") and rng.random() < 0.5 else None))
     probe_progs = [(pid_, mk(), what) for pid_, mk, what in PROBES]
     probe_cases = [go_case(p, ["simple", "multi"], [True]) for _, p, _ in probe_progs]
     outs = ck.run_go("c02", go_cases + probe_cases, timeout=3000)
     probe_outs = outs[len(go_cases):]
     outs = outs[:len(go_cases)]
+    cyc_cases = [{"src": to_mangle(p), "rounds": cyc_rounds, "limit": 2000, "timeout_ms": 5000} for p in cyc_progs]
+    cyc_outs = ck.run_go("c02cyc", cyc_cases, timeout=3000)
     ck.log("go side done: %d programs" % len(progs))
 
     terms, where, rejected, stage_counts = [], [], [], {}
@@ -1122,11 +1199,34 @@ def run(ck):
             continue
         rw_terms.append(coq(([cq_rule(r) for r in rules], rewrite_tokens(o["out"]))))
         rw_where.append((c, o))
+    cyc_terms, cyc_where = [], []
+    cyc_stats = {"programs": len(cyc_progs), "rounds_per_program": cyc_rounds, "runs": 0, "refused_by_stratify": 0,
+                 "refused_by_analysis": 0, "evaluated": 0, "evaluated_then_failed": 0}
+    cyc_unreached = []
+    for k, o in enumerate(cyc_outs):
+        if "out" not in o or o["out"]["stage"] != "ok":
+            ck.violation({"property": "C02", "kind": "agg-cycle runner failed", "src": cyc_cases[k]["src"], "impl": o,
+                          "no_longer_checks": "correspondence Run.C02.judge_cyc (generator / harness)"},
+                         "no-failing-input-found")
+            continue
+        x = o["out"]
+        cyc_stats["runs"] += x["rounds"]
+        cyc_stats["refused_by_stratify"] += x["rej_strat"]
+        cyc_stats["refused_by_analysis"] += x["rej_analysis"]
+        cyc_stats["evaluated"] += x["accepted"]
+        cyc_stats["evaluated_then_failed"] += x["other_err"]
+        if x["rej_analysis"] == x["rounds"]:
+            cyc_unreached.append((cyc_cases[k]["src"], x.get("msg", "")))
+        cyc_terms.append(cq_cyc(cyc_progs[k], x))
+        cyc_where.append(k)
     all_terms = terms + [t for _, _, t in probe_where]
-    with ThreadPoolExecutor(max_workers=2) as ex:
-        fut_rw = ex.submit(ck.run_coq, "C02", "judge_rewrite", rw_terms, max(8, len(rw_terms) // 4 + 1), "rw")
-        all_verdicts = ck.run_coq("C02", "judge", all_terms, shard=max(8, len(all_terms) // 14 + 1))
+    with ThreadPoolExecutor(max_workers=3) as ex:
+        # every coqc start loads Run.C02 (several CPU-seconds): few shards for the cheap judges
+        fut_rw = ex.submit(ck.run_coq, "C02", "judge_rewrite", rw_terms, max(40, len(rw_terms) // 4 + 1), "rw")
+        fut_cyc = ex.submit(ck.run_coq, "C02", "judge_cyc", cyc_terms, max(60, len(cyc_terms) // 4 + 1), "cyc")
+        all_verdicts = ck.run_coq("C02", "judge", all_terms, shard=max(8, len(all_terms) // 12 + 1))
         rw_verdicts = fut_rw.result()
+        cyc_verdicts = fut_cyc.result()
     verdicts = all_verdicts[:len(terms)]
     probes = {}
     for (kid, what, _), v in zip(probe_where, all_verdicts[len(terms):]):
@@ -1142,12 +1242,9 @@ def run(ck):
         if v in (0, 5) or len(ck.violations) >= 5:
             continue
         rep = build_replay(ck, progs[i], go_cases[i], g, v, origin[i])
-        if g["err"] == "":
-            try:
-                coll = dc.f8_collisions([f for f in facts_from_go(g["facts"])])
-            except Exception:
-                coll = []
-            if coll and v in (1, 2):
+        if g["err"] == "" and v in (1, 2):
+            coll = f8_trigger(ck, progs[i], g)
+            if coll:
                 f8_skipped += 1
                 ck.known("F8 a generated program produced two facts with equal Atom.Hash(): %s / %s" % coll[0])
                 continue
@@ -1160,6 +1257,22 @@ def run(ck):
             rep["no_longer_checks"] = "correspondence Run.C02.judge: " + VERDICT.get(v, str(v))
             ck.violation(rep, "no-failing-input-found")
 
+    cyc_vc = {}
+    for k, v in zip(cyc_where, cyc_verdicts):
+        cyc_vc[v] = cyc_vc.get(v, 0) + 1
+        if v == 0 or len(ck.violations) >= 5:
+            continue
+        rep = build_cyc_replay(ck, cyc_progs[k], cyc_cases[k], cyc_outs[k]["out"], v, cyc_origin[k])
+        if v == 2:
+            ck.violation(rep)
+        else:
+            rep["no_longer_checks"] = "correspondence Run.C02.judge_cyc: the generated program has no aggregation edge on a cycle (generator)"
+            ck.violation(rep, "no-failing-input-found")
+    if len(cyc_unreached) > 0.1 * max(1, len(cyc_progs)):
+        ck.violation({"property": "C02", "kind": "generator: more than 10% of the agg-cycle programs never reached the stratifier",
+                      "no_longer_checks": "correspondence Run.C02.judge_cyc (input distribution broken)",
+                      "samples": cyc_unreached[:3]}, "no-failing-input-found")
+
     rw_bad = 0
     for (c, o), v in zip(rw_where, rw_verdicts):
         if v != 0:
@@ -1171,7 +1284,7 @@ def run(ck):
 
     rej_random = [r for r in rejected if origin[r[0]] != "exhaustive"]
     feats = {}
-    for p in progs:
+    for p in progs + cyc_progs:
         for f in p.get("features", ["corpus"]):
             feats[f] = feats.get(f, 0) + 1
     nontrivial = set()
@@ -1190,10 +1303,11 @@ def run(ck):
     errs = {}
     for (i, g) in where:
         errs[g["err"] or "ok"] = errs.get(g["err"] or "ok", 0) + 1
-    cov = {"evaluations": evaluations, "programs": len(progs), "comparisons": len(terms),
+    evaluations += cyc_stats["runs"]
+    cov = {"evaluations": evaluations, "programs": len(progs) + len(cyc_progs), "comparisons": len(terms) + len(cyc_terms),
            "distinct_nontrivial": len(nontrivial),
            "rule": "programs through parse -> AnalyzeOneUnit -> EvalProgram per store kind x WithDeterministicOrder "
-                   "(corpus %d, random %d, exhaustive %d); every result judged against the model and by the observer "
+                   "(corpus %d, random %d + confusable-constant programs, exhaustive %d); every result judged against the model and by the observer "
                    "(independent fold over the body's solutions); non-trivial = a head with >= 2 aggregating rules or a "
                    "multi-premise aggregating body; distinct by program text" % (ncorpus, nrandom, nexh),
            "exhaustive": nexh > 0,
@@ -1204,6 +1318,20 @@ def run(ck):
            "go_outcomes": errs, "verdicts": {str(k): n for k, n in sorted(vc.items())},
            "rewrite_comparisons": len(rw_terms), "rewrite_disagreements": rw_bad,
            "probes": probes, "f8_trigger_skipped": f8_skipped,
+           "confusable_programs": nconf,
+           "confusable_rule": "p0(A, B, tag, 2^i) with A, B drawn from families of constants that print alike across types "
+                              "(7 \"7\" b\"7\" 7.0 /a \"/a\"), contain the separators of the key encoding, or have equal "
+                              "Constant.Hash() (0 0.0 [] [0] fn:pair(0,0) fn:pair(0,2^32); 1.5 and its bit pattern; /a \"/a\" "
+                              "b\"/a\"; tuples (0,0) (0,2^32) (0,2^33)); 1-3 rules group by A / B / (A,B) / nothing and "
+                              "collect(_distinct) A, B, (A,B), (B,N); verdict = the same Coq judge (model + observer spec_do "
+                              "with keys and collected values compared as constants); facts hash-distinct by construction",
+           "agg_cycle": dict(cyc_stats, verdicts={str(k): n for k, n in sorted(cyc_vc.items())},
+                             never_reached_stratifier=len(cyc_unreached),
+                             origins={o: cyc_origin.count(o) for o in sorted(set(cyc_origin))}),
+           "agg_cycle_rule": "programs with an aggregation edge on a dependency cycle (Coq: agg_in_cycle = true, premise of "
+                             "agg_cycle_not_stratifiable); each taken from text through AnalyzeOneUnit + EvalProgram "
+                             "rounds_per_program times (map iteration order of analysis.Stratify); verdict: evaluated in any "
+                             "run = violation; cyc_detail (closed under the plain rules? observer?) is reported in the replay",
            "samples": [go_cases[min(len(go_cases) - 1, ncorpus)]["src"], go_cases[min(len(go_cases) - 1, ncorpus + 1)]["src"]]}
     if rej_random:
         cov["rejected_samples"] = [(go_cases[i]["src"], m) for i, _, m in rej_random[:3]]
@@ -1229,6 +1357,21 @@ def replay(ck, path):
     ck.build_harness()
     rep = json.load(open(path))
     prog = rep["program"]
+    if rep.get("kind") == "agg-cycle":
+        case = {"src": rep.get("src") or to_mangle(prog), "rounds": 200, "limit": 2000, "timeout_ms": 5000}
+        out = ck.run_go("c02cyc", [case])[0]
+        if "out" not in out or out["out"]["stage"] != "ok":
+            print("replay: program not run: %s" % json.dumps(out)[:300])
+            print("VIOLATION property=C02 replay=%s" % path)
+            return 1
+        x = out["out"]
+        v = ck.run_coq("C02", "judge_cyc", [cq_cyc(prog, x)])[0]
+        print("replay: %d runs: refused by Stratify %d, by analysis %d, evaluated %d (+%d failed later): verdict %d"
+              % (x["rounds"], x["rej_strat"], x["rej_analysis"], x["accepted"], x["other_err"], v))
+        if v != 0:
+            print("VIOLATION property=C02 replay=%s" % path)
+            return 1
+        return 0
     gc = go_case(prog, ALL_STORES, [False, True])
     if "src" in rep:
         gc["src"] = rep["src"]
